@@ -143,3 +143,5 @@ def vcs(tier):
 BOUNDS = {"addresses_with_state": N, "amounts": "full u128", "initial_balances": 2}
 OUTSIDE = "as C01; histories closed by induction on the invariant `minter with cap c => supply <= c` and absorbing `mint = None`"
 ASSUMPTIONS = ["verify_logo stubbed", "semver versions of stored contract_info are arbitrary (symbolic triples)"]
+
+SECOND_SOLVER = True      # thorough tier: every non-trivial obligation is re-discharged with cvc5
